@@ -235,11 +235,11 @@ func main() {
 	var core []int
 	for i := range items {
 		all[i] = i
-		if items[i].Core {
+		if (r.Thorough() && items[i].Core) || items[i].Quick {
 			core = append(core, i)
 		}
 	}
-	kAll := 2             // every subset of <= kAll items of the whole alphabet
+	kAll := r.Pick(1, 2)  // every subset of <= kAll items of the whole alphabet
 	kCore := r.Pick(2, 3) // every subset of <= kCore items of the core alphabet
 	optK := r.Pick(-1, 1) // compiler-option variants on files of <= optK items
 	levels := [][][]int{}
